@@ -1,6 +1,8 @@
 package main
 
 import (
+	"os"
+	"go/types"
 	"fmt"
 	"go/token"
 	"strings"
@@ -10,12 +12,13 @@ import (
 
 func init() {
 	register("C30", func(r *Report) {
-		r.Explanation = "Sibling comparison of the three action closures (bisquitt, bisquitt-pub, bisquitt-sub), each explored for the four combinations of (--predefined-topics-file given, --predefined-topic given) with symbolic map values: (F1) the file flag's path is what ReadPredefinedTopicsFile reads; (F2) the option flag's values are what ParsePredefinedTopicOptions parses; (F3) the options map is merged INTO the file map (receiver/argument roles) after the file was read; (F4) the merged map is what reaches the PredefinedTopics field of the gateway/client configuration and the tools' own GetTopicID lookups; (F5) the flag names are the same in the three tools; (R6) Merge overwrites entry by entry (t[c][id] = src[c][id]) and adopts whole client maps only when the client is absent; (R7) the option list: every option that parses is handed to Add exactly once, in order, with the triple parsed from it (none is skipped on any condition), Add assigns t[client][id] = name unconditionally, and an option without a client ID is filed under the all-clients key. All three vectors must satisfy the specification (not merely agree). Not decided: YAML decoding."
+		r.Explanation = "Sibling comparison of the three action closures (bisquitt, bisquitt-pub, bisquitt-sub), each explored for the four combinations of (--predefined-topics-file given, --predefined-topic given) with symbolic map values: (F1) the file flag's path is what ReadPredefinedTopicsFile reads; (F2) the option flag's values are what ParsePredefinedTopicOptions parses; (F3) the options map is merged INTO the file map (receiver/argument roles) after the file was read; (F4) the merged map is what reaches the PredefinedTopics field of the gateway/client configuration and the tools' own GetTopicID lookups; (F5) the flag names are the same in the three tools; (R6) Merge overwrites entry by entry (t[c][id] = src[c][id]) and adopts whole client maps only when the client is absent; (R7) the option list: every option that parses is handed to Add exactly once, in order, with the triple parsed from it (none is skipped on any condition), Add assigns t[client][id] = name unconditionally, and an option without a client ID is filed under the all-clients key; (R8) a topic ID parsed from option text is refused when it does not fit 16 bits (the parse's bit size is at most the width it is converted to), so an option never overrides an entry it does not name. All three vectors must satisfy the specification (not merely agree). Not decided: YAML decoding."
 		r.floor("F", 12)
 		r.floor("R6", 1)
+		r.floor("R8", 1)
 	}, checkC30)
 	register("C31", func(r *Report) {
-		r.Explanation = "Decides all flag/environment combinations (finite abstract domain, exhaustively propagated; environment aliases are part of the cli.Flag declarations, so Context.Bool/IsSet cover them): (R1) each tool's action closure is explored for every consistent valuation of (--dtls, --insecure value and presence, --auth resp. --user presence and emptiness); the gateway/client constructor is reachable with credentials in use only if dtls or insecure(value) holds; (R2) the configuration's UseDTLS / AuthEnabled / User fields carry exactly those flag values; (R3) in the client library the AUTH packet is built iff cfg.User is non-empty, and on every iteration of the connect loop each CONNECT send is immediately followed by the AUTH send exactly when that AUTH exists; (R4) no library code writes the User, Password or UseDTLS field of a client configuration (the user the guards saw is the user the library sees). Not decided: that DTLS actually encrypts."
+		r.Explanation = "Decides all flag/environment combinations (finite abstract domain, exhaustively propagated; environment aliases are part of the cli.Flag declarations, so Context.Bool/IsSet cover them): (R1) each tool's action closure is explored for every consistent valuation of (--dtls, --insecure value and presence, --auth resp. --user presence and emptiness); the gateway/client constructor is reachable with credentials in use only if dtls or insecure(value) holds; (R2) the configuration's UseDTLS / AuthEnabled / User fields carry exactly those flag values; (R3) in the client library the AUTH packet is built iff cfg.User is non-empty (the guard, and a constructor that returns a fresh packet on every path), and on every iteration of the connect loop each CONNECT send is immediately followed by the AUTH send exactly when that AUTH exists; (R4) no library code writes the User, Password or UseDTLS field of a client configuration (the user the guards saw is the user the library sees). Not decided: that DTLS actually encrypts."
 		r.floor("R1", 20)
 		r.floor("R2", 6)
 		r.floor("R3", 3)
@@ -139,6 +142,7 @@ func (c *Ctx) cliExplorer(env cliEnv) *explorer {
 }
 
 func checkC30(c *Ctx, r *Report) {
+	c.checkParsedIDWidth(r, "R8")
 	const fileFlag, optFlag = "predefined-topics-file", "predefined-topic"
 	for _, tool := range cliTools {
 		f := c.actionClosure(tool)
@@ -440,6 +444,24 @@ func (c *Ctx) checkAuthAfterConnect(r *Report) {
 						}
 					}
 					r.cond(okc, "R3", fnKey(f)+":auth-iff-user", c.instrPos(i), "the AUTH packet is built only when cfg.User is non-empty", "an AUTH packet is built without the guard cfg.User != \"\"")
+					// "iff": with a user configured the AUTH always exists - its constructor returns a fresh packet on
+					// every path (the connect routine reads a nil AUTH as 'no credentials configured')
+					if g := staticCallee(&call.Call); g != nil && g.Blocks != nil {
+						r.fn(g)
+						nilRet := ""
+						for _, b := range g.Blocks {
+							ret, ok := b.Instrs[len(b.Instrs)-1].(*ssa.Return)
+							if !ok || len(ret.Results) != 1 {
+								continue
+							}
+							for _, o := range c.deepOrigins(ret.Results[0], 2) {
+								if o.Kind != "alloc" {
+									nilRet = c.instrPos(ret) + " (" + o.String() + ")"
+								}
+							}
+						}
+						r.cond(nilRet == "", "R3", fnKey(g)+":always-returns-a-packet", c.pos(g.Pos()), "every return of the AUTH constructor is a freshly allocated packet", "the AUTH constructor can return something else than a fresh packet ("+nilRet+"): for those credentials the connect routine takes the client for one without a user and sends CONNECT, and every retransmission of it, without AUTH")
+					}
 				}
 			}
 		})
@@ -610,4 +632,72 @@ func (c *Ctx) checkOptionListSemantics(r *Report, rule string) {
 		})
 	}
 	r.cond(star, rule, "ParsePredefinedTopicOptions:no-client-id-means-all", c.pos(parse.Pos()), "an option without a client ID is filed under \"*\"", "an option without a client ID is not filed under \"*\"")
+}
+
+// checkParsedIDWidth (C30-R8): "the mapping is the file's, overridden entry by entry by the options": an option names
+// the entry it overrides by a topic ID. The number parsed from the option text must be refused when it does not fit
+// the 16-bit ID - a parse with a wider bit size followed by a narrowing conversion silently files the entry under
+// another ID (65537 -> 1) and overrides an entry no option names. Every conversion to a narrower integer type in
+// package topics whose operand comes from strconv.ParseUint/ParseInt needs a constant bitSize <= the target width.
+func (c *Ctx) checkParsedIDWidth(r *Report, rule string) {
+	n := 0
+	for _, f := range c.repoFuncs("topics") {
+		allInstrs(f, func(i ssa.Instruction) {
+			cv, ok := i.(*ssa.Convert)
+			if !ok {
+				return
+			}
+			tb, ok1 := cv.Type().Underlying().(*types.Basic)
+			sb, ok2 := cv.X.Type().Underlying().(*types.Basic)
+			if !ok1 || !ok2 || tb.Info()&types.IsInteger == 0 || sb.Info()&types.IsInteger == 0 {
+				return
+			}
+			width := func(b *types.Basic) int64 {
+				switch b.Kind() {
+				case types.Uint8, types.Int8:
+					return 8
+				case types.Uint16, types.Int16:
+					return 16
+				case types.Uint32, types.Int32:
+					return 32
+				}
+				return 64
+			}
+			if width(tb) >= width(sb) {
+				return
+			}
+			os_ := c.deepOrigins(cv.X, 3)
+			parsed := false
+			bad := ""
+			for _, o := range os_ {
+				if o.Kind != "call" || !(o.Callee == "strconv.ParseUint" || o.Callee == "strconv.ParseInt") {
+					continue
+				}
+				parsed = true
+				if len(o.Args) != 3 {
+					bad = "bit size not found"
+					continue
+				}
+				k, isC := constInt(o.Args[2])
+				if !isC || k == 0 || k > width(tb) {
+					bad = fmt.Sprintf("%s(..., bitSize %s) converted to a %d-bit integer", o.Callee, exprStr(o.Args[2]), width(tb))
+				}
+			}
+			if os.Getenv("BISQ_DEBUG") != "" {
+				for _, o := range os_ {
+					fmt.Println("C30-R8 origin", c.instrPos(i), o.String(), o.Kind, o.Callee)
+				}
+			}
+			if !parsed {
+				return
+			}
+			n++
+			r.fn(f)
+			key := fmt.Sprintf("%s:parsed-number-fits-%s", fnKey(f), tb.Name())
+			r.cond(bad == "", rule, key, c.instrPos(i), "the parse refuses every value the conversion would truncate", "a number parsed from configuration text is narrowed without a range check ("+bad+"): a topic ID above 65535 in a --predefined-topic option is not refused but wraps around and overrides the entry of ANOTHER topic ID, one the option list does not name")
+		})
+	}
+	if n == 0 {
+		r.undecided(rule, "topics:parsed-number-conversions", "-", "no narrowing conversion of a parsed number found in package topics")
+	}
 }
